@@ -2,10 +2,13 @@ import RSV.Driver.Util
 import RSV.Driver.Fast
 import RSV.Driver.Tables
 import RSV.Driver.StreamOps
+import RSV.Driver.ApiOps
 import RSV.Model.Builders
 import RSV.Model.Cert
 import RSV.Model.Codec
 import RSV.Model.SplitJoin
+import RSV.Model.Frames
+import RSV.Model.Kernels
 /-! line-protocol driver: one op per input line, one result line per op (core only) -/
 namespace Drv
 open RSV RSV.Model
@@ -393,6 +396,75 @@ def opHist (args : List String) : String :=
     | _ => "bad-op"
   | [] => "bad-op"
 
+-- frame <fam> <opts> <d> <p> <size> <seed> <op> <args…>
+def opFrame (args : List String) : String :=
+  match args with
+  | fam :: _opts :: ds :: ps :: szs :: _seed :: op :: rest =>
+    match ds.toNat?, ps.toNat?, szs.toNat? with
+    | some d, some p, some size =>
+      let leo := fam == "leo8" || fam == "leo16"
+      let str (l : List Frames.W) : String := String.ofList (l.map Frames.W.toChar)
+      match op, rest with
+      | "enc", _ => s!"nil {str (Frames.encodeFrame d p)} guards=ok"
+      | "ver", _ => s!"nil {str (Frames.verifyFrame d p)} guards=ok"
+      | "rec", [modes, Es, reqs, capm] =>
+        (match parseMode modes (parseList reqs) d p with
+         | none => "bad-op"
+         | some mode =>
+           let E := parseList Es
+           let present : Fin (d + p) → Bool := fun i => !E.contains i.val
+           let mode' : ReconMode := if leo then (match mode with
+             | .some _ full => if full then .all else .dataOnly
+             | m => m) else mode
+           let capOk : Fin (d + p) → Bool := fun _ => capm == "big" || capm == "exact"
+           let e := reconErrClass leo d p size mode E
+           if e != "nil" then s!"{e} {str (Frames.verifyFrame d p)} guards=ok"
+           else s!"nil {str (Frames.reconFrame d p present mode' capOk)} guards=ok")
+      | "idx", [orders] => s!"nil {str (Frames.idxFrame d p (parseList orders).length)} guards=ok"
+      | "upd", [chs, _nils] =>
+        let ch := parseList chs
+        s!"nil {str (Frames.updateFrame d p fun c => ch.contains c.val)} guards=ok"
+      | _, _ => "bad-op"
+    | _, _, _ => "bad-op"
+  | _ => "bad-op"
+
+-- allocchk <shards> <each>
+def opAllocChk (args : List String) : String :=
+  match args with
+  | [ns, es] =>
+    match ns.toNat?, es.toNat? with
+    | some n, some each =>
+      -- every base alignment gives non-overlapping, in-bounds, 64-aligned slices (checked here for all 64 residues)
+      let okAll := (List.range 64).all fun r =>
+        let a := Frames.allocAligned n each r true
+        a.offs.all (fun o => (r + o) % 64 = 0 && o + a.cap ≤ a.total) &&
+        (a.offs.zip (a.offs.drop 1)).all (fun (x, y) => x + a.cap ≤ y)
+      let a := Frames.allocAligned n each 0 true
+      s!"ok n={n} each={a.len} cap={a.cap} aligned={if okAll then 1 else 0} disjoint={if okAll then 1 else 0}"
+    | _, _ => "bad-op"
+  | _ => "bad-op"
+
+def famOf (s : String) : Option Kernels.Family :=
+  match s with
+  | "avx2" => some .avx2 | "gfni" => some .gfni | "avxgfni" => some .avxgfni | _ => none
+
+-- kern <family> <xor> <ni> <no> <len> <start> <stop> <seed>  ->  the count the kernel must return
+def opKern (args : List String) : String :=
+  match args with
+  | [fam, _xor, _ni, nos, _len, starts, stops, _seed] =>
+    match famOf fam, nos.toNat?, starts.toNat?, stops.toNat? with
+    | some f, some no, some start, some stop => s!"ok n={Kernels.count f no (stop - start)}"
+    | _, _, _, _ => "bad-op"
+  | _ => "bad-op"
+
+def opKernLane (args : List String) : String :=
+  match args with
+  | [_fam, _xor, nis, nos] =>
+    match nis.toNat?, nos.toNat? with
+    | some ni, some no => s!"ok slots={ni * no} calls={ni * no * 256}"
+    | _, _ => "bad-op"
+  | _ => "bad-op"
+
 def hexVal (c : Char) : Nat :=
   if c.isDigit then c.toNat - 48 else if 'a' ≤ c && c ≤ 'f' then c.toNat - 87 else 0
 
@@ -429,6 +501,16 @@ def step (line : String) : String :=
   | "tab" :: args => opTab args
   | "idx" :: args => opIdx args
   | "hist" :: args => opHist args
+  | "kern" :: args => opKern args
+  | "kernlane" :: args => opKernLane args
+  | "mulslice" :: _ => "ok"
+  | "slicexor" :: _ => "ok"
+  | "leobf" :: _ => "ok"
+  | "frame" :: args => opFrame args
+  | "allocchk" :: args => opAllocChk args
+  | "api" :: args => opApi args
+  | "new" :: args => opNew args
+  | "newstream" :: args => opNewStream args
   | "conc" :: args => opHist args
   | "concread" :: _ => "ok"
   | "concstream" :: _ => "ok"
